@@ -15,6 +15,9 @@ package main
 //   rawUnlocks  for kind 0/1: unguarded `<x>.Unlock()` statements elsewhere in the function (a second unlock
 //               of a sync.Mutex is a fatal error); for kind 2: further Unlocks beyond the matching one
 //   relocks     further `<x>.Lock()` statements in the same function
+//   peerWaits   calls that wait for the NF consumer (SendChargingNotification, anything reached through
+//               `.Consumer()`) while the mutex is held: between Lock and Unlock (kind 2), or anywhere after the Lock
+//               in the function when the unlock is deferred (kind 0/1) or not found (kind 3)
 
 import (
 	"fmt"
@@ -30,6 +33,36 @@ import (
 type lockSite struct {
 	where                            string
 	kind, calls, rawUnlocks, relocks int
+	peerWaits                        int
+}
+
+// calls that wait for the consumer's answer, at positions in (from, to)
+func countPeerWaits(n ast.Node, from, to token.Pos) int {
+	c := 0
+	ast.Inspect(n, func(x ast.Node) bool {
+		ce, ok := x.(*ast.CallExpr)
+		if !ok || ce.Pos() <= from || (to != token.NoPos && ce.Pos() >= to) {
+			return true
+		}
+		name := ""
+		switch f := ce.Fun.(type) {
+		case *ast.SelectorExpr:
+			name = f.Sel.Name
+			if inner, ok := f.X.(*ast.CallExpr); ok {
+				if se, ok := inner.Fun.(*ast.SelectorExpr); ok && se.Sel.Name == "Consumer" {
+					c++
+					return true
+				}
+			}
+		case *ast.Ident:
+			name = f.Name
+		}
+		if name == "SendChargingNotification" {
+			c++
+		}
+		return true
+	})
+	return c
 }
 
 var basicConv = map[string]bool{"int": true, "int8": true, "int16": true, "int32": true, "int64": true, "uint": true, "uint8": true,
@@ -155,6 +188,7 @@ func lockSitesOf(file string) ([]lockSite, error) {
 				o := get(recv)
 				site := lockSite{where: fmt.Sprintf("%s:%s:%s", filepath.Base(file), fd.Name.Name, recv), kind: 3, relocks: o.lock - 1}
 				rest := bs.List[i+1:]
+				site.peerWaits = countPeerWaits(fd.Body, es.Pos(), token.NoPos)
 				switch {
 				case len(rest) > 0 && func() bool {
 					ds, ok := rest[0].(*ast.DeferStmt)
@@ -188,6 +222,7 @@ func lockSitesOf(file string) ([]lockSite, error) {
 								}
 							}
 							site.rawUnlocks = o.unlock - 1
+							site.peerWaits = countPeerWaits(fd.Body, es.Pos(), r.Pos())
 							found = true
 							break
 						}
@@ -227,14 +262,14 @@ func init() {
 		var sb strings.Builder
 		sb.WriteString("/- GENERATED from the repository's working tree by `verifharness dump-tables locksites` — do not edit. -/\n")
 		sb.WriteString("import ChfVerif.Model.LockDiscipline\nnamespace Chf.Gen\nopen Chf.LockDiscipline\n\n")
-		sb.WriteString("/-- every `Lock()` statement of the request path: where, kind, calls before the unlock is guaranteed,\n    unguarded Unlocks elsewhere, further Locks of the same mutex in the function -/\n")
+		sb.WriteString("/-- every `Lock()` statement of the request path: where, kind, calls before the unlock is guaranteed,\n    unguarded Unlocks elsewhere, further Locks of the same mutex in the function, calls that wait for the consumer\n    while the mutex is held -/\n")
 		sb.WriteString("def lockSites : List LockSite := [\n")
 		for i, s := range sites {
 			sep := ","
 			if i == len(sites)-1 {
 				sep = ""
 			}
-			fmt.Fprintf(&sb, "  ⟨%s, %d, %d, %d, %d⟩%s\n", leanStr(s.where), s.kind, s.calls, s.rawUnlocks, s.relocks, sep)
+			fmt.Fprintf(&sb, "  ⟨%s, %d, %d, %d, %d, %d⟩%s\n", leanStr(s.where), s.kind, s.calls, s.rawUnlocks, s.relocks, s.peerWaits, sep)
 		}
 		sb.WriteString("]\n\nend Chf.Gen\n")
 		fmt.Print(sb.String())
